@@ -292,6 +292,17 @@ func loadPkg(dir string) (*pkg, error) {
 						}
 						return true
 					}
+					if cc, ok := n.(*ast.CaseClause); ok {
+						// the constants a switch distinguishes: <function>_case (in source order)
+						for _, e := range cc.List {
+							switch e.(type) {
+							case *ast.BasicLit, *ast.BinaryExpr, *ast.ParenExpr, *ast.UnaryExpr:
+								key := fd.Name.Name + "_case"
+								p.lits[key] = append(p.lits[key], e)
+							}
+						}
+						return true
+					}
 					ds, ok := n.(*ast.DeclStmt)
 					if !ok {
 						return true
@@ -395,7 +406,7 @@ func main() {
 				}
 			}
 			if len(el) > 0 {
-				fmt.Fprintf(&b, "Definition %s : list Z := [%s].  (* constants assigned to a local variable *)\n", coqName(n), strings.Join(el, "; "))
+				fmt.Fprintf(&b, "Definition %s : list Z := [%s].  (* constants assigned to a local variable / distinguished by a switch *)\n", coqName(n), strings.Join(el, "; "))
 			}
 		}
 		vnames := []string{}
